@@ -288,6 +288,18 @@ def run(prop, tier, seed, replay=None):
         src = open(os.path.join(COQ, "Props", pid + ".v"), encoding="utf-8").read()
         pinfo["theorems"] = re.findall(r"^\s*(?:Theorem|Corollary)\s+(\w+)", src, re.M)
     forbidden = scan_forbidden()
+    # thorough tier: re-check the compiled theory with the independent checker
+    chk = None
+    if tier == "thorough" and pinfo["ok"] and os.environ.get("VERIF_NO_COQCHK") != "1":
+        rc, out, err, w = sh(["coqchk", "-silent", "-o", "-Q", ".", "Labella", "Labella.Props." + pid], 3000, cwd=COQ)
+        txt = out + err
+        ax = ""
+        if "* Axioms:" in txt:
+            ax = txt.split("* Axioms:")[1].split("* Constants")[0].strip()
+        chk = {"rc": rc, "axioms": ax, "wall_s": round(w, 1)}
+        if rc != 0 or ax not in ("<none>", ""):
+            pinfo["ok"] = False
+            pinfo["log"] = "coqchk: rc=%s axioms=%s\n%s" % (rc, ax, txt[-1500:])
     proof_broken = (not pinfo["ok"]) or bool(forbidden)
 
     # 3. cases
@@ -425,6 +437,7 @@ def run(prop, tier, seed, replay=None):
             "theorems": pinfo["theorems"], "examples": pinfo.get("examples", []),
             "print_assumptions_closed": pinfo["closed"], "axioms": pinfo["axioms"],
             "forbidden_constructs_found": forbidden,
+            "coqchk": chk,
             "checker_cmd": "cd /verif/coq && make Props/%s.vo && coqc -Q . Labella Props/%s.v" % (pid, pid),
             "trusted_base": TRUSTED_BASE + list(getattr(prop, "TRUSTED_EXTRA", [])),
             "evaluations": len(cases),
